@@ -307,6 +307,52 @@ def run_job(job, scratch_root, keep=False):
     return res
 
 
+# ---- memory budget: the sum of the expected peak memory (est_gb, per job family) of the running jobs stays below the
+# machine's memory; a job killed for lack of memory while others were running is retried once, nearly alone.
+MEM_TOTAL = float(os.environ.get("VERIF_MEM_GB", "50"))
+_mem_cv = threading.Condition()
+_mem_used = [0.0]
+
+
+def _est(job):
+    if "est_gb" in job:
+        return float(job["est_gb"])
+    m = job.get("mem_gb", 12)
+    return 26.0 if m >= 30 else (10.0 if m >= 19 else 2.0)
+
+
+def _acquire(gb):
+    gb = min(gb, MEM_TOTAL)
+    with _mem_cv:
+        while _mem_used[0] + gb > MEM_TOTAL and _mem_used[0] > 0:
+            _mem_cv.wait(timeout=5)
+        _mem_used[0] += gb
+    return gb
+
+
+def _release(gb):
+    with _mem_cv:
+        _mem_used[0] -= gb
+        _mem_cv.notify_all()
+
+
+def run_job_budgeted(job, scratch, keep):
+    gb = _acquire(_est(job))
+    try:
+        res = run_job(job, scratch, keep)
+    finally:
+        _release(gb)
+    if res.get("status") in ("oom", "error") and ("out of memory" in (res.get("note") or "") or "no result block" in (res.get("note") or "")):
+        gb = _acquire(MEM_TOTAL - 4)       # retry with (almost) the whole machine
+        try:
+            res2 = run_job(job, scratch, keep)
+            res2["note"] = (res2.get("note") or "") + " (second attempt; the first was killed for lack of memory under load)"
+            res = res2
+        finally:
+            _release(gb)
+    return res
+
+
 def trace_inputs(trace, entry=None):
     """Condense a CBMC JSON trace: first value of every scalar leaf of the harness locals, of the
     objects created by is_fresh (initial contents) and of the ghost variables.
@@ -439,7 +485,7 @@ def main():
             futs = {}
             for j in sel:
                 pool = exh if j.get("mem_gb", 12) >= 20 else ex
-                futs[pool.submit(run_job, j, scratch, args.keep)] = j
+                futs[pool.submit(run_job_budgeted, j, scratch, args.keep)] = j
             for f in as_completed(futs):
                 j = futs[f]
                 try:
